@@ -320,6 +320,8 @@ def mon_c03_adders(im, p):
                 continue
             kind = 'list' if kind0.startswith('list') else 'dict'
             for stmt, valid_on in p['stmts']:
+                if kind0 == 'defaultdict' and 'c["fresh"][' in stmt:
+                    continue      # READING a missing key of a host defaultdict runs the host's own __missing__ (which inserts)
                 c = makers[kind0](n)
                 snap = copy.copy(c)
                 try:
@@ -432,11 +434,25 @@ def mon_c04(im, p):
             before = state.names[self.name]
         except Exception:
             before = None
-        r = orig_short(self, state)
+        rhs = {}
+        node = self.value
+
+        class _Rec:
+            def eval(s, st):
+                rhs['v'] = node.eval(st)
+                return rhs['v']
+        try:
+            object.__setattr__(self, 'value', _Rec())
+            r = orig_short(self, state)
+        finally:
+            object.__setattr__(self, 'value', node)
         after = state.names[self.name]
         if self.op == '*=':
             if isinstance(after, (str, list)) and isinstance(before, (str, list)):
-                fails.append({'signature': 'D12:imul-native', 'what': f'*= repeated a {type(before).__name__}', 'input': p})
+                # D12 is the NATIVE `*=` of a sequence by a host int; a sequence repeated by one of the language's own numbers
+                # (a Decimal) is something else
+                sig = 'D12:imul-native' if isinstance(rhs.get('v'), int) else 'imul-repeats-by-' + type(rhs.get('v')).__name__
+                fails.append({'signature': sig, 'what': f'*= repeated a {type(before).__name__} ({type(rhs.get("v")).__name__} multiplier)', 'input': p})
             elif digits_of(after) is not None and not isinstance(after, decimal.Decimal):
                 fails.append({'signature': 'D12:imul-native', 'what': f'*= returned a {type(after).__name__} of {digits_of(after)} digits', 'input': p})
             elif isinstance(after, decimal.Decimal) and digits_of(after) > 28:
@@ -656,6 +672,24 @@ def mon_c09(im, p):
     return {'fail': fails, 'nontrivial': bool(logged)}
 
 
+def mon_c09_chain(im, p):
+    """`a or b or c …` / `a and b and c …` (any length, any grouping) yield the DECIDING OPERAND ITSELF - computed here from the
+    operand values with Python's own and/or over the same truthiness"""
+    fails = []
+    vals = {'0': 0, '""': '', '[]': [], 'None': None, '"x"': 'x', '5': 5, '[1]': [1], 'False': False, 'True': True, '{}': {}, '0.0': __import__('decimal').Decimal('0.0'), '"0"': '0'}
+    canon = lambda v: '[' + ', '.join(canon(x) for x in v) + ']' if isinstance(v, list) else ('{}' if isinstance(v, dict) else str(v))
+    for tpl, parts in p['srcs']:
+        src = tpl.format(*parts)
+        exp = eval(tpl.format(*[f'V[{q!r}]' for q in parts]), {'__builtins__': {}}, {'V': vals})
+        try:
+            got = canon(im.p.eval(src, {}, max_ops_evaluated=1000))
+        except Exception as e:
+            got = 'raised ' + type(e).__name__
+        if got != canon(exp):
+            fails.append({'signature': 'andor-value', 'what': f'{src!r} evaluates to {got}; the deciding operand is {canon(exp)}', 'input': {'src': src}})
+    return {'fail': fails, 'nontrivial': True}
+
+
 # ------------------------------------------------------------------ C10
 def mon_c10(im, p):
     ns = im.ns
@@ -696,6 +730,37 @@ def mon_c10(im, p):
                 fails.append({'signature': 'host-binding-changed', 'what': f'host binding {k!r} changed from {v0!r} to {v1!r} after {src[:100]!r} '
                               'although no top-level statement assigns it', 'input': p})
                 break
+    return {'fail': fails, 'nontrivial': True}
+
+
+def mon_c10_locals(im, p):
+    """lambdas with statement bodies (supplied through ast_names) that bind NO parameter at the call - declared without
+    parameters, or called with zero arguments - and assign: their locals vanish with the call, whether it is made from top
+    level or from inside another lambda call, whether it returns or raises"""
+    ns = im.ns
+    A = ns.ast_ops
+    fails = []
+    for sc in p['scenarios']:
+        ast_names = {n: A.LambdaOp(args=[A.NameOp(q) for q in ps], expr=im.p.parse(body)) for n, ps, body in sc['astfns']}
+        names = dict(evalimpl.Host({}).fns)
+        names.update({k: D(v) for k, v in sc.get('names', {}).items()})
+        try:
+            res = im.p.eval(sc['src'], names, ast_names=ast_names, max_ops_evaluated=1000)
+            canon = lambda v: '[' + ', '.join(canon(x) for x in v) + ']' if isinstance(v, list) else str(v)
+            out = canon(res)
+        except Exception as e:
+            out = 'raised ' + type(e).__name__
+        why = None
+        if 'expect' in sc and out != sc['expect']:
+            why = f'result {out}, expected {sc["expect"]}'
+        for k in sc.get('absent', []):
+            if k in names:
+                why = f'{k!r} is bound to {names[k]!r} in the host mapping afterwards'
+        for k, v in sc.get('keep', {}).items():
+            if names.get(k) != D(v):
+                why = f'host binding {k!r} changed from {v} to {names.get(k)!r}'
+        if why:
+            fails.append({'signature': 'lambda-local-survives', 'what': f'{sc["src"]!r} with ast_names {sc["astfns"]}: {why}', 'input': sc})
     return {'fail': fails, 'nontrivial': True}
 
 
@@ -782,7 +847,7 @@ def _do_call(im, host, call, maps):
         if kind == 'eval':
             names = None if call[2] == 'none' else maps[call[2]]
             kw = {} if call[3] == 'default' else {'max_ops_evaluated': int(call[3])}
-            ns.functions.random = evalimpl.FakeRandom(int(call[4]))
+            evalimpl.set_random(ns, evalimpl.FakeRandom(int(call[4])))
             res = im.p.eval(call[1], names, **kw) if names is not None else im.p.eval(call[1], **kw)
             return 'ok ' + _canon(ns, host, res) + ' ;; ' + (_canon(ns, host, names) if names is not None else '-')
     except ns.exc.ParserError as e:
@@ -803,7 +868,7 @@ def _has_function(v):
 def mon_c11(im0, p):
     """each call of a history is repeated on a freshly constructed SqParser with deep-copied equal arguments"""
     ns = im0.ns
-    real_random = ns.functions.random
+    real_random = getattr(ns.functions, 'random', None)
     host = evalimpl.Host({})
     host.classify = im0.classify
     im = sqimpl.Impl(ns)
@@ -829,7 +894,7 @@ def mon_c11(im0, p):
                               'input': p})
                 break
     finally:
-        ns.functions.random = real_random
+        evalimpl.set_random(ns, real_random)
     return {'fail': fails, 'nontrivial': True}
 
 
@@ -879,7 +944,12 @@ def mon_c12(im, p):
         return {'fail': [], 'nontrivial': False}
     names = info['names']
     fails = []
-    pairs = [('x', 'h'), ('y', 'h'), ('x', 'y'), ('acc', 'h'), ('acc', 'x')]
+    pairs = [('x', 'h'), ('y', 'h'), ('x', 'y'), ('acc', 'h'), ('acc', 'x'), ('x', 'g'), ('x', 'q'), ('y', 'g'), ('acc', 'g')]
+    src0 = unhx(evalimpl.field(es, 'src')[0])
+    import re as _re
+    if _re.search(r'(^|; |\n)(g|h) = ', src0):
+        # the host bound ONE object under g and h; once the program has assigned either name, that name holds a private copy
+        pairs.append(('g', 'h'))
     for a, b in pairs:
         if a in names and b in names and isinstance(names[a], (list, dict)) and isinstance(names[b], (list, dict)):
             common = _reach_ids(names[a]) & _reach_ids(names[b])
@@ -915,8 +985,8 @@ MUTATORS = ('push', 'pop', 'insert', 'remove', '__setitem__', '__setitem_with_op
 def mon_c13(im, p):
     ns = im.ns
     F = ns.functions.FUNCTIONS
-    real_random = ns.functions.random
-    ns.functions.random = evalimpl.FakeRandom(7)
+    real_random = getattr(ns.functions, 'random', None)
+    evalimpl.set_random(ns, evalimpl.FakeRandom(7))
     host = evalimpl.Host({})
     fails = []
     try:
@@ -939,7 +1009,7 @@ def mon_c13(im, p):
                                   'input': {'fn': name, 'args': argspec}})
                     break
     finally:
-        ns.functions.random = real_random
+        evalimpl.set_random(ns, real_random)
     return {'fail': fails, 'nontrivial': True}
 
 
@@ -1163,7 +1233,7 @@ def mon_c16(im, p):
 def mon_c17(im0, p):
     """a cached and an uncached parser driven in lock-step over the same history; cached trees snapshotted around every eval"""
     ns = im0.ns
-    real_random = ns.functions.random
+    real_random = getattr(ns.functions, 'random', None)
     host = evalimpl.Host({})
     host.classify = im0.classify
     cache = evalimpl.make_cache(p['cache'])
@@ -1199,7 +1269,7 @@ def mon_c17(im0, p):
             if call[0] == 'eval' and ga.startswith('ok (L'):
                 pass
     finally:
-        ns.functions.random = real_random
+        evalimpl.set_random(ns, real_random)
     return {'fail': fails, 'nontrivial': True}
 
 
@@ -1353,7 +1423,7 @@ def mon_c19(im, p):
     # the extreme values random.random() can return (it promises [0.0, 1.0)): the largest double below 1, values that
     # round to 1 at 6 / 10 / 15 places, the smallest positive ones
     import math
-    real = ns.functions.random
+    real = getattr(ns.functions, 'random', None)
 
     class _Ext:
         def __init__(self, v):
@@ -1366,7 +1436,7 @@ def mon_c19(im, p):
             return getattr(real, k)
     try:
         for v in (math.nextafter(1.0, 0.0), 0.9999995, 0.99999999995, 0.999999999999999, 0.0, 5e-324, 1e-30, 0.5):
-            ns.functions.random = _Ext(v)
+            evalimpl.set_random(ns, _Ext(v))
             try:
                 x = im.p.eval('rand()')
             except Exception as e:
@@ -1376,7 +1446,7 @@ def mon_c19(im, p):
                 fails.append({'signature': 'rand0-out-of-range', 'what': f'rand() = {x!r} when random.random() returns {v!r}', 'input': p})
                 break
     finally:
-        ns.functions.random = real
+        evalimpl.set_random(ns, real)
     for L in p['lists']:
         arg = list(L)
         for _ in range(p['draws'] // 4 + 1):
@@ -1392,6 +1462,26 @@ def mon_c19(im, p):
         if arg != L:
             fails.append({'signature': 'shuffle-result-aliases-argument', 'what': f'push(shuffle(l), 99) changed l = {L!r} into {arg!r}', 'input': p})
             arg[:] = L
+        # the argument reached through other expressions than a bare name: an element of a host list / dict, the result of a
+        # lambda or of another builtin that hands its argument through
+        big = list(L) * 3 + list(L)
+        for form, mk in (('shuffle(rows[1])', lambda: {'rows': [[0], list(big)]}), ('rows[1] | shuffle', lambda: {'rows': [[0], list(big)]}),
+                         ('shuffle(d["cards"])', lambda: {'d': {'cards': list(big)}}), ('d | get("cards") | shuffle', lambda: {'d': {'cards': list(big)}}),
+                         ('ident = v => v; shuffle(ident(l))', lambda: {'l': list(big)}), ('shuffle(apply(v => v, l))', lambda: {'l': list(big)}),
+                         ('shuffle(max([l]))', lambda: {'l': list(big)}), ('shuffle(l or [])', lambda: {'l': list(big)}),
+                         ('shuffle(l if True else [])', lambda: {'l': list(big)}), ('shuffle(rand([l]))', lambda: {'l': list(big)})):
+            for _ in range(3):
+                names = mk()
+                snap = copy.deepcopy({k: v for k, v in names.items()})
+                try:
+                    s = im.p.eval(form, names)
+                except Exception:
+                    break
+                host_now = {k: names[k] for k in snap}
+                if host_now != snap or sorted(map(repr, s)) != sorted(map(repr, big)):
+                    fails.append({'signature': 'shuffle-changes-argument', 'what': f'{form} with {snap!r}: result {s!r}, host objects afterwards {host_now!r}',
+                                  'input': {'form': form, 'names': repr(snap)}})
+                    break
     return {'fail': fails[:3], 'nontrivial': True}
 
 
@@ -1420,6 +1510,60 @@ def mon_c20(im0, p):
     m = re.search(r'at line (\d+)$', msg)
     if not m or int(m.group(1)) != line:
         fails.append({'signature': 'wrong-line', 'what': f'offending token at offset {pos} stands on physical line {line}; message {msg!r}', 'input': p})
+    return {'fail': fails, 'nontrivial': True}
+
+
+_zyg = None
+
+
+def _zygote_ask(req):
+    """one request to the pristine-interpreter server (started once per worker process)"""
+    global _zyg
+    import subprocess, os
+    if _zyg is None or _zyg.poll() is not None:
+        _zyg = subprocess.Popen([sys.executable, os.path.join(os.path.dirname(os.path.abspath(__file__)), 'zygote.py')],
+                                stdin=subprocess.PIPE, stdout=subprocess.PIPE, text=True, encoding='utf-8', errors='surrogatepass')
+    _zyg.stdin.write(json.dumps(req) + '\n')
+    _zyg.stdin.flush()
+    return _zyg.stdout.readline().rstrip('\n').replace('\\n', '\n')
+
+
+def mon_c11_process(im0, p):
+    """after a history of calls in THIS process, one more call with freshly built arguments is compared with the same call
+    made in a pristine interpreter (forked from a process that has imported the library and never parsed or evaluated
+    anything): state kept at module / class / process level - caches of nodes, memoised helpers, decimal context flags,
+    interned tables - cannot hide here"""
+    ns = im0.ns
+    real_random = getattr(ns.functions, 'random', None)
+    host = evalimpl.Host({})
+    host.classify = im0.classify
+    im = sqimpl.Impl(ns)
+    maps = list(evalimpl.Reader(ns, host).val(evalimpl.sread(p['heap'])[0]))
+    fails = []
+    try:
+        for call in p['calls']:
+            call = tuple(call)
+            if call[0] == 'hostpush':
+                continue
+            try:
+                _do_call(im, host, call, maps)
+            except RecursionError:
+                pass
+        for final in p['finals']:
+            host2 = evalimpl.Host({})
+            host2.classify = im0.classify
+            maps2 = list(evalimpl.Reader(ns, host2).val(evalimpl.sread(p['heap'])[0]))
+            got = _do_call(sqimpl.Impl(ns) if p.get('fresh_parser') else im, host2, tuple(final), maps2)
+            exp = _zygote_ask({'heap': p['heap'], 'call': final})
+            if exp.startswith('ZYGOTE'):
+                return {'fail': [], 'nontrivial': False, 'zygote': exp}
+            if got != exp:
+                fails.append({'signature': 'process-history-dependence:' + final[0],
+                              'what': f'after {len(p["calls"])} earlier calls in the process, {tuple(final)[:2]!r} gives {got[:200]!r}; in a pristine '
+                                      f'interpreter the same call gives {exp[:200]!r}', 'input': p})
+                break
+    finally:
+        evalimpl.set_random(ns, real_random)
     return {'fail': fails, 'nontrivial': True}
 
 
